@@ -29,104 +29,212 @@ fn cfg_name(t: bool, c: bool) -> String {
     format!("{}/{}", if t { "tolerant" } else { "strict" }, if c { "cached" } else { "uncached" })
 }
 
-/// walk many documents: chunks run in parallel child processes
-pub fn walk_all(docs: &[Doc], limits: Limits) -> Vec<DocResult> {
+/// After this many documents that cost a time-out or a dead child process the search stops: the verdict
+/// is a violation anyway, and every further one costs seconds.
+const EXPENSIVE_FAILURES: usize = 12;
+
+/// Walk many documents in parallel child processes. The first `keep_first` documents (the deterministic
+/// witnesses) are walked first, the others in a scattered order (so that documents of one kind, which
+/// fail together, are spread over the workers), in batches of 32. `None`: not walked because the search
+/// was stopped after `EXPENSIVE_FAILURES` time-outs / crashes.
+pub fn walk_some(docs: &[Doc], limits: Limits, keep_first: usize) -> Vec<Option<DocResult>> {
+    let n = docs.len();
     let threads = std::thread::available_parallelism().map(|n| n.get()).unwrap_or(4).clamp(2, 8);
-    let chunk = ((docs.len() + threads * 4 - 1) / (threads * 4)).clamp(1, 400);
-    let chunks: Vec<&[Doc]> = docs.chunks(chunk).collect();
+    // order: witnesses, then a stride permutation of the rest
+    let mut order: Vec<usize> = (0..keep_first.min(n)).collect();
+    let rest = n - order.len();
+    if rest > 0 {
+        let mut stride = 7919usize;
+        while gcd(stride, rest) != 1 {
+            stride += 1;
+        }
+        order.extend((0..rest).map(|i| keep_first + (i * stride) % rest));
+    }
+    // small batches for the witnesses (those of one defect fail together and each failure costs seconds)
+    let kf = keep_first.min(n);
+    let mut batches: Vec<&[usize]> = order[..kf].chunks(4).collect();
+    batches.extend(order[kf..].chunks(32));
     let next = std::sync::atomic::AtomicUsize::new(0);
-    let results: Vec<std::sync::Mutex<Vec<DocResult>>> = chunks.iter().map(|_| std::sync::Mutex::new(vec![])).collect();
+    let expensive = std::sync::atomic::AtomicUsize::new(0);
+    let results: std::sync::Mutex<Vec<Option<DocResult>>> = std::sync::Mutex::new(vec![None; n]);
     std::thread::scope(|s| {
         for _ in 0..threads {
             s.spawn(|| loop {
                 let i = next.fetch_add(1, std::sync::atomic::Ordering::SeqCst);
-                if i >= chunks.len() {
+                if i >= batches.len() || expensive.load(std::sync::atomic::Ordering::SeqCst) >= EXPENSIVE_FAILURES {
                     break;
                 }
-                let r = run_batch("C14", chunks[i], limits);
-                *results[i].lock().unwrap() = r;
+                let batch: Vec<Doc> = batches[i].iter().map(|k| docs[*k].clone()).collect();
+                let r = run_batch("C14", &batch, limits);
+                let bad = r.iter().filter(|x| matches!(x.outcome, Outcome::Timeout | Outcome::Crash { .. })).count();
+                expensive.fetch_add(bad, std::sync::atomic::Ordering::SeqCst);
+                let mut g = results.lock().unwrap();
+                for (k, x) in batches[i].iter().zip(r.into_iter()) {
+                    g[*k] = Some(x);
+                }
             });
         }
     });
-    results.into_iter().flat_map(|m| m.into_inner().unwrap()).collect()
+    results.into_inner().unwrap()
+}
+
+fn gcd(a: usize, b: usize) -> usize {
+    if b == 0 { a } else { gcd(b, a % b) }
+}
+
+/// all documents, in order
+pub fn walk_all(docs: &[Doc], limits: Limits) -> Vec<DocResult> {
+    walk_some(docs, limits, docs.len()).into_iter().map(|r| r.unwrap_or(DocResult { outcome: Outcome::NotRun("search stopped".into()), ms: 0, calls: Default::default() })).collect()
 }
 
 fn custom_docs(thorough: bool, rng: &mut Rng) -> Vec<Planted> {
     let mut out = vec![];
-    let mut push = |frag: &'static str, desc: String, bytes: Vec<u8>| out.push(Planted { frag, desc, bytes });
-    // ---- cross-reference stream numerics: /W, /Index, /Size, /Prev
     let b = BOUNDARY;
-    push("xref-stream", "default".into(), xref_stream_doc(["1", "4", "2"], None, "5", [1, 4, 2], 0, None));
-    for k in 0..3 {
+    // every document below is written behind 0, 13 and SECTION_SPACING junk bytes
+    for px in [0usize, 13, SECTION_SPACING] {
+        let mut push = |frag: &'static str, desc: String, bytes: Vec<u8>| out.push(Planted { frag, desc: if px == 0 { desc } else { format!("{}|prefix={}", desc, px) }, bytes });
+        // ---- cross-reference stream numerics: /W, /Index, /Size, /Prev
+        let b = BOUNDARY;
+        push("xref-stream", "default".into(), xref_stream_doc_at(px, ["1", "4", "2"], None, "5", [1, 4, 2], 0, None));
+        for k in 0..3 {
+            for v in b.iter() {
+                let mut w = ["1", "4", "2"];
+                w[k] = v;
+                push("xref-stream", format!("W[{}]={}", k, v), xref_stream_doc_at(px, w, None, "5", [1, 4, 2], 0, None));
+                push("xref-stream", format!("W[{}]={} index 0 2147483647", k, v), xref_stream_doc_at(px, w, Some("0 2147483647"), "5", [1, 4, 2], 0, None));
+            }
+        }
         for v in b.iter() {
-            let mut w = ["1", "4", "2"];
-            w[k] = v;
-            push("xref-stream", format!("W[{}]={}", k, v), xref_stream_doc(w, None, "5", [1, 4, 2], 0, None));
-            push("xref-stream", format!("W[{}]={} index 0 2147483647", k, v), xref_stream_doc(w, Some("0 2147483647"), "5", [1, 4, 2], 0, None));
+            push("xref-stream", format!("W=all {}", v), xref_stream_doc_at(px, [v, v, v], None, "5", [1, 4, 2], 0, None));
+            push("xref-stream", format!("W=all {} index 0 2147483647", v), xref_stream_doc_at(px, [v, v, v], Some("0 2147483647"), "5", [1, 4, 2], 0, None));
+            push("xref-stream", format!("Size={}", v), xref_stream_doc_at(px, ["1", "4", "2"], None, v, [1, 4, 2], 0, None));
+            push("xref-stream", format!("Prev={}", v), xref_stream_doc_at(px, ["1", "4", "2"], None, "5", [1, 4, 2], 0, Some(v)));
+            for v2 in b.iter() {
+                push("xref-stream", format!("Index={} {}", v, v2), xref_stream_doc_at(px, ["1", "4", "2"], Some(&format!("{} {}", v, v2)), "5", [1, 4, 2], 0, None));
+            }
+            push("xref-stream", format!("Index odd {}", v), xref_stream_doc_at(px, ["1", "4", "2"], Some(&format!("0 1 {}", v)), "5", [1, 4, 2], 0, None));
         }
-    }
-    for v in b.iter() {
-        push("xref-stream", format!("W=all {}", v), xref_stream_doc([v, v, v], None, "5", [1, 4, 2], 0, None));
-        push("xref-stream", format!("W=all {} index 0 2147483647", v), xref_stream_doc([v, v, v], Some("0 2147483647"), "5", [1, 4, 2], 0, None));
-        push("xref-stream", format!("Size={}", v), xref_stream_doc(["1", "4", "2"], None, v, [1, 4, 2], 0, None));
-        push("xref-stream", format!("Prev={}", v), xref_stream_doc(["1", "4", "2"], None, "5", [1, 4, 2], 0, Some(v)));
-        for v2 in b.iter() {
-            push("xref-stream", format!("Index={} {}", v, v2), xref_stream_doc(["1", "4", "2"], Some(&format!("{} {}", v, v2)), "5", [1, 4, 2], 0, None));
-        }
-        push("xref-stream", format!("Index odd {}", v), xref_stream_doc(["1", "4", "2"], Some(&format!("0 1 {}", v)), "5", [1, 4, 2], 0, None));
-    }
-    push("xref-stream", "W=0 0 0 count 2147483647".into(), xref_stream_doc(["0", "0", "0"], Some("0 2147483647"), "5", [1, 4, 2], 0, None));
-    push("xref-stream", "W=0 0 0 count 2147483647 size 1000000".into(), xref_stream_doc(["0", "0", "0"], Some("0 2147483647"), "1000000", [1, 4, 2], 0, None));
-    push("xref-stream", "W=8 8 8".into(), xref_stream_doc(["8", "8", "8"], None, "5", [8, 8, 8], 0, None));
-    push("xref-stream", "W=9 1 1".into(), xref_stream_doc(["9", "1", "1"], None, "5", [1, 4, 2], 8, None));
-    push("xref-stream", "W=0 4 2 (type defaults to 1)".into(), xref_stream_doc(["0", "4", "2"], None, "5", [0, 4, 2], 0, None));
-    push("xref-stream", "W short array".into(), xref_stream_doc(["1", "4", "2 7"], None, "5", [1, 4, 2], 0, None));
+        push("xref-stream", "W=0 0 0 count 2147483647".into(), xref_stream_doc_at(px, ["0", "0", "0"], Some("0 2147483647"), "5", [1, 4, 2], 0, None));
+        push("xref-stream", "W=0 0 0 count 2147483647 size 1000000".into(), xref_stream_doc_at(px, ["0", "0", "0"], Some("0 2147483647"), "1000000", [1, 4, 2], 0, None));
+        push("xref-stream", "W=8 8 8".into(), xref_stream_doc_at(px, ["8", "8", "8"], None, "5", [8, 8, 8], 0, None));
+        push("xref-stream", "W=9 1 1".into(), xref_stream_doc_at(px, ["9", "1", "1"], None, "5", [1, 4, 2], 8, None));
+        push("xref-stream", "W=0 4 2 (type defaults to 1)".into(), xref_stream_doc_at(px, ["0", "4", "2"], None, "5", [0, 4, 2], 0, None));
+        push("xref-stream", "W short array".into(), xref_stream_doc_at(px, ["1", "4", "2 7"], None, "5", [1, 4, 2], 0, None));
 
-    // ---- object streams
-    let member = |n: &str, first: &str, header: &str, body: &[u8]| ObjStmSpec { n: n.into(), first: first.into(), header: header.into(), body: body.to_vec(), extends: None };
-    let good = member("2", "10", "20 0 21 3 ", b"11 [22] ");
-    let mem = [(20u64, 10u64, 0u64), (21, 10, 1)];
-    push("objstm", "default".into(), objstm_doc(&good, None, &mem, None, None));
-    push("objstm", "stream 10 stored in itself".into(), objstm_doc(&good, None, &mem, Some((10, 0)), None));
-    push("objstm", "stream 10 stored in itself at index 1".into(), objstm_doc(&good, None, &mem, Some((10, 1)), None));
-    let other = member("1", "5", "30 0 ", b"77 ");
-    push("objstm", "10 in 11, 11 in 10".into(), objstm_doc(&good, Some(&other), &mem, Some((11, 0)), Some((10, 0))));
-    push("objstm", "10 in 11 (11 plain)".into(), objstm_doc(&good, Some(&other), &mem, Some((11, 0)), None));
-    push("objstm", "member in a stream that is not an object stream".into(), objstm_doc(&good, None, &[(20, 3, 0), (21, 1, 0)], None, None));
-    push("objstm", "member in a missing stream, huge index".into(), objstm_doc(&good, None, &[(20, 15, 0), (21, 10, 65535)], None, None));
-    let mut ext = member("2", "10", "20 0 21 3 ", b"11 [22] ");
-    ext.extends = Some(10);
-    push("objstm", "extends itself".into(), objstm_doc(&ext, None, &mem, None, None));
-    for v in b.iter() {
-        push("objstm", format!("N={}", v), objstm_doc(&member(v, "10", "20 0 21 3 ", b"11 [22] "), None, &mem, None, None));
-        push("objstm", format!("First={}", v), objstm_doc(&member("2", v, "20 0 21 3 ", b"11 [22] "), None, &mem, None, None));
-        push("objstm", format!("offset0={}", v), objstm_doc(&member("2", "10", &format!("20 {} 21 3 ", v), b"11 [22] "), None, &mem, None, None));
-        push("objstm", format!("offset1={}", v), objstm_doc(&member("2", "10", &format!("20 0 21 {} ", v), b"11 [22] "), None, &mem, None, None));
-        push("objstm", format!("objnr={}", v), objstm_doc(&member("2", "10", &format!("{} 0 21 3 ", v), b"11 [22] "), None, &mem, None, None));
-        for v2 in b.iter() {
-            if thorough || rng.chance(1, 3) {
-                push("objstm", format!("First={} offset1={}", v, v2), objstm_doc(&member("2", v, &format!("20 0 21 {} ", v2), b"11 [22] "), None, &mem, None, None));
+        // ---- object streams
+        let member = |n: &str, first: &str, header: &str, body: &[u8]| ObjStmSpec { n: n.into(), first: first.into(), header: header.into(), body: body.to_vec(), extends: None };
+        let good = member("2", "10", "20 0 21 3 ", b"11 [22] ");
+        let mem = [(20u64, 10u64, 0u64), (21, 10, 1)];
+        push("objstm", "default".into(), objstm_doc_at(px, &good, None, &mem, None, None));
+        push("objstm", "stream 10 stored in itself".into(), objstm_doc_at(px, &good, None, &mem, Some((10, 0)), None));
+        push("objstm", "stream 10 stored in itself at index 1".into(), objstm_doc_at(px, &good, None, &mem, Some((10, 1)), None));
+        let other = member("1", "5", "30 0 ", b"77 ");
+        push("objstm", "10 in 11, 11 in 10".into(), objstm_doc_at(px, &good, Some(&other), &mem, Some((11, 0)), Some((10, 0))));
+        push("objstm", "10 in 11 (11 plain)".into(), objstm_doc_at(px, &good, Some(&other), &mem, Some((11, 0)), None));
+        push("objstm", "member in a stream that is not an object stream".into(), objstm_doc_at(px, &good, None, &[(20, 3, 0), (21, 1, 0)], None, None));
+        push("objstm", "member in a missing stream, huge index".into(), objstm_doc_at(px, &good, None, &[(20, 15, 0), (21, 10, 65535)], None, None));
+        let mut ext = member("2", "10", "20 0 21 3 ", b"11 [22] ");
+        ext.extends = Some(10);
+        push("objstm", "extends itself".into(), objstm_doc_at(px, &ext, None, &mem, None, None));
+        for v in b.iter() {
+            push("objstm", format!("N={}", v), objstm_doc_at(px, &member(v, "10", "20 0 21 3 ", b"11 [22] "), None, &mem, None, None));
+            push("objstm", format!("First={}", v), objstm_doc_at(px, &member("2", v, "20 0 21 3 ", b"11 [22] "), None, &mem, None, None));
+            push("objstm", format!("offset0={}", v), objstm_doc_at(px, &member("2", "10", &format!("20 {} 21 3 ", v), b"11 [22] "), None, &mem, None, None));
+            push("objstm", format!("offset1={}", v), objstm_doc_at(px, &member("2", "10", &format!("20 0 21 {} ", v), b"11 [22] "), None, &mem, None, None));
+            push("objstm", format!("objnr={}", v), objstm_doc_at(px, &member("2", "10", &format!("{} 0 21 3 ", v), b"11 [22] "), None, &mem, None, None));
+            for v2 in b.iter() {
+                if thorough || rng.chance(1, 3) {
+                    push("objstm", format!("First={} offset1={}", v, v2), objstm_doc_at(px, &member("2", v, &format!("20 0 21 {} ", v2), b"11 [22] "), None, &mem, None, None));
+                }
+            }
+        }
+        push("objstm", "First=2147483647 offset0=18446744073709551615".into(), objstm_doc_at(px, &member("2", "2147483647", "20 18446744073709551615 21 3 ", b"11 [22] "), None, &mem, None, None));
+        push("objstm", "First=1 offset1=18446744073709551615".into(), objstm_doc_at(px, &member("2", "1", "20 0 21 18446744073709551615 ", b"11 [22] "), None, &mem, None, None));
+        push("objstm", "offsets decreasing".into(), objstm_doc_at(px, &member("2", "10", "20 5 21 0 ", b"11 [22] "), None, &mem, None, None));
+
+    }
+    let mut push = |frag: &'static str, desc: String, bytes: Vec<u8>| out.push(Planted { frag, desc, bytes });
+
+    // ---- /Prev chains and startxref, behind junk prefixes. Every number in the file is relative to the
+    // header; `+prefix` / `-prefix` values are what a writer (or a reader) gets when it mixes the two
+    // coordinate systems. Sections start SECTION_SPACING bytes apart: with a prefix of that length a wrongly
+    // based offset lands on the neighbouring section.
+    let d = SECTION_SPACING as i64;
+    for px in [0usize, 1, 13, SECTION_SPACING, 2 * SECTION_SPACING, 1019] {
+        let pxi = px as i64;
+        for stream in [false, true] {
+            let mut chains: Vec<(String, Vec<Pv>, Pv)> = vec![
+                ("none".into(), vec![Pv::None], Pv::Sec(0)),
+                ("self".into(), vec![Pv::Sec(0)], Pv::Sec(0)),
+                ("two, second to first".into(), vec![Pv::Sec(1), Pv::Sec(0)], Pv::Sec(0)),
+                ("two, second to itself".into(), vec![Pv::Sec(1), Pv::Sec(1)], Pv::Sec(0)),
+                ("three in a ring".into(), vec![Pv::Sec(1), Pv::Sec(2), Pv::Sec(0)], Pv::Sec(0)),
+                ("three, last to middle".into(), vec![Pv::Sec(1), Pv::Sec(2), Pv::Sec(1)], Pv::Sec(0)),
+                ("chain of 3".into(), vec![Pv::Sec(1), Pv::Sec(2), Pv::None], Pv::Sec(0)),
+                ("four in a ring".into(), vec![Pv::Sec(1), Pv::Sec(2), Pv::Sec(3), Pv::Sec(0)], Pv::Sec(0)),
+                ("four, ring of the last three".into(), vec![Pv::Sec(1), Pv::Sec(2), Pv::Sec(3), Pv::Sec(1)], Pv::Sec(0)),
+                // offsets in the wrong coordinate system
+                ("prev absolute".into(), vec![Pv::SecPlus(1, pxi), Pv::None], Pv::Sec(0)),
+                ("prev absolute, ring".into(), vec![Pv::SecPlus(1, pxi), Pv::SecPlus(0, pxi)], Pv::Sec(0)),
+                ("prev minus prefix, ring".into(), vec![Pv::SecPlus(1, -pxi), Pv::SecPlus(0, -pxi)], Pv::Sec(0)),
+                ("prev one section off, ring".into(), vec![Pv::SecPlus(1, d), Pv::SecPlus(1, -d), Pv::Sec(0)], Pv::Sec(0)),
+                ("startxref absolute".into(), vec![Pv::Sec(1), Pv::None], Pv::SecPlus(0, pxi)),
+                ("startxref minus prefix".into(), vec![Pv::Sec(1), Pv::Sec(0)], Pv::SecPlus(0, -pxi)),
+                ("startxref at the older section".into(), vec![Pv::Sec(1), Pv::Sec(0)], Pv::Sec(1)),
+                ("startxref one byte off".into(), vec![Pv::Sec(0)], Pv::SecPlus(0, 1)),
+            ];
+            for v in b.iter() {
+                chains.push((format!("Prev={}", v), vec![Pv::Lit(v.to_string())], Pv::Sec(0)));
+                chains.push((format!("second Prev={}", v), vec![Pv::Sec(1), Pv::Lit(v.to_string())], Pv::Sec(0)));
+                chains.push((format!("startxref={}", v), vec![Pv::Sec(0)], Pv::Lit(v.to_string())));
+                // 2^64 - 1 - prefix + k: `start_offset + offset` wraps or just does not
+                if let Ok(n) = v.parse::<u64>() {
+                    chains.push((format!("Prev={}-prefix", v), vec![Pv::Lit(n.wrapping_sub(px as u64).to_string())], Pv::Sec(0)));
+                }
+            }
+            for (name, prevs, sx) in chains {
+                let doc = prev_doc_at(px, &prevs, stream, &sx);
+                push("prev", format!("{} stream={}|prefix={}", name, stream, px), doc.bytes);
             }
         }
     }
-    push("objstm", "First=2147483647 offset0=18446744073709551615".into(), objstm_doc(&member("2", "2147483647", "20 18446744073709551615 21 3 ", b"11 [22] "), None, &mem, None, None));
-    push("objstm", "First=1 offset1=18446744073709551615".into(), objstm_doc(&member("2", "1", "20 0 21 18446744073709551615 ", b"11 [22] "), None, &mem, None, None));
-    push("objstm", "offsets decreasing".into(), objstm_doc(&member("2", "10", "20 5 21 0 ", b"11 [22] "), None, &mem, None, None));
 
-    // ---- /Prev chains
-    let p = |s: &str| Some(s.to_string());
-    for stream in [false, true] {
-        push("prev", format!("none stream={}", stream), prev_doc(&[None], stream));
-        push("prev", format!("self stream={}", stream), prev_doc(&[p("@0")], stream));
-        push("prev", format!("two, second to first stream={}", stream), prev_doc(&[p("@1"), p("@0")], stream));
-        push("prev", format!("three in a ring stream={}", stream), prev_doc(&[p("@1"), p("@2"), p("@0")], stream));
-        push("prev", format!("three, last to middle stream={}", stream), prev_doc(&[p("@1"), p("@2"), p("@1")], stream));
-        push("prev", format!("chain of 3 stream={}", stream), prev_doc(&[p("@1"), p("@2"), None], stream));
-        for v in b.iter() {
-            push("prev", format!("Prev={} stream={}", v, stream), prev_doc(&[p(v)], stream));
-            push("prev", format!("second Prev={} stream={}", v, stream), prev_doc(&[p("@1"), p(v)], stream));
+    // ---- entries of the table: the offset of one object pointed everywhere, classic table and stream
+    // (8-byte offset field), behind junk prefixes
+    for px in [0usize, 1, 13, 200, 1019] {
+        let pxi = px as i64;
+        for stream in [false, true] {
+            for victim in [1u64, 2, 3, 5] {
+                let mut offsets: Vec<(String, Off)> = vec![
+                    ("true".into(), Off::Of(victim)),
+                    ("absolute".into(), Off::OfPlus(victim, pxi)),
+                    ("minus prefix".into(), Off::OfPlus(victim, -pxi)),
+                    ("one byte early".into(), Off::OfPlus(victim, -1)),
+                    ("one byte late".into(), Off::OfPlus(victim, 1)),
+                    ("inside its dictionary".into(), Off::OfPlus(victim, 12)),
+                ];
+                for other in [1u64, 2, 3, 5] {
+                    if other != victim {
+                        offsets.push((format!("of object {}", other), Off::Of(other)));
+                    }
+                }
+                for v in [0u64, 9, 15, 2147483647, 4294967295, 9999999999, 1 << 63, u64::MAX - 1019, u64::MAX - px as u64, (u64::MAX - px as u64).wrapping_add(1), u64::MAX] {
+                    // a classic table cannot hold more than the reader's usize parse accepts: still written
+                    offsets.push((format!("{}", v), Off::Lit(v)));
+                }
+                for (name, off) in offsets {
+                    if !thorough && px != 0 && px != 13 && !name.contains("prefix") && !name.contains("absolute") && !name.starts_with("1844") && !name.starts_with("922") { continue; }
+                    push("xref-offsets", format!("object {} offset {} stream={}|prefix={}", victim, name, stream, px), xref_offsets_doc(px, stream, victim, &off, None));
+                }
+            }
+            let mut sxs: Vec<String> = vec!["@X".into(), "0".into(), "15".into(), "-1".into(), "@x junk".into(), "junk".into()];
+            sxs.extend(b.iter().map(|v| v.to_string()));
+            for sx in sxs {
+                push("xref-offsets", format!("startxref {} stream={}|prefix={}", sx, stream, px), xref_offsets_doc(px, stream, 99, &Off::Lit(0), Some(&sx)));
+            }
         }
     }
+    let _ = thorough;
     out
 }
 
@@ -142,17 +250,34 @@ pub fn generate(seed: u64, thorough: bool) -> Gen {
     let k = if thorough { 4 } else { 3 };
     let lim = if thorough { 70_000 } else { 3_000 };
     let joint = if thorough { 2_000 } else { 60 };
-    let mut add = |f: Frag, limit: usize, joint: usize, rng: &mut Rng, docs: &mut Vec<Planted>| {
-        let (d, ex) = f.enumerate(limit, joint, rng);
+    // Every document is generated in the plain layout (header at byte 0, classic table, objects stored
+    // directly). In addition every `every`-th one is generated again in one of these layouts, in turn:
+    // junk before the header (all offsets then differ from buffer positions) and / or the plain objects
+    // stored in an object stream behind a cross-reference stream.
+    let variants = [
+        Variant { prefix: 9, compressed: false },
+        Variant { prefix: 0, compressed: true },
+        Variant { prefix: SECTION_SPACING, compressed: false },
+        Variant { prefix: 200, compressed: true },
+        Variant { prefix: 1019, compressed: false },
+    ];
+    let every = if thorough { 2 } else { 4 };
+    let mut add_v = |f: Frag, limit: usize, joint: usize, every: usize, rng: &mut Rng, docs: &mut Vec<Planted>| {
+        let (d, ex) = f.enumerate_with(limit, joint, rng, &variants, every);
         exhaustive.push((f.name.to_string(), ex, d.len()));
         docs.extend(d);
     };
+    let mut add = |f: Frag, limit: usize, joint: usize, rng: &mut Rng, docs: &mut Vec<Planted>| add_v(f, limit, joint, every, rng, docs);
     add(pagetree(k), lim, joint, &mut rng, &mut docs);
     if !thorough {
         // the 4-object page tree is sampled in the quick tier
         add(pagetree(4), 150, 30, &mut rng, &mut docs);
     }
-    add(tree(k, false, !thorough), if thorough { lim } else { 7_000 }, 0, &mut rng, &mut docs);
+    // quick: every node one kid / the root two kids exhaustively, two kids everywhere sampled
+    add(tree(k, false, false), lim, 0, &mut rng, &mut docs);
+    if !thorough {
+        add(tree(k, false, true), 1_500, 0, &mut rng, &mut docs);
+    }
     add(tree(k, true, false), if thorough { lim } else { 400 }, 0, &mut rng, &mut docs);
     if !thorough {
         add(tree(4, false, false), 150, 0, &mut rng, &mut docs);
@@ -168,7 +293,10 @@ pub fn generate(seed: u64, thorough: bool) -> Gen {
     for n in [1, 4, 5, 6, 7, 19, 20, 21] {
         docs.push(colorspace_depth(n));
     }
-    add(stream_lengths(), 3_000, 0, &mut rng, &mut docs);
+    drop(add);
+    add_v(stream_lengths(), 3_000, 0, if thorough { 1 } else { 2 }, &mut rng, &mut docs);
+    add_v(trailer_refs(), if thorough { 6_000 } else { 500 }, 0, 1, &mut rng, &mut docs);
+    let mut add = |f: Frag, limit: usize, joint: usize, rng: &mut Rng, docs: &mut Vec<Planted>| add_v(f, limit, joint, every, rng, docs);
     add(ref_chains(), if thorough { 80_000 } else { 600 }, 0, &mut rng, &mut docs);
     docs.extend(functions());
     add(annotations(k), if thorough { lim } else { 1_200 }, if thorough { 2_000 } else { 100 }, &mut rng, &mut docs);
@@ -191,6 +319,16 @@ pub fn generate(seed: u64, thorough: bool) -> Gen {
     add(predictor(), 10, joint / 2, &mut rng, &mut docs);
     add(runlength(), 10, 0, &mut rng, &mut docs);
     add(crypt(), 10, joint / 2, &mut rng, &mut docs);
+    drop(add);
+    // two hostile constructs in one document, in three layouts
+    let ks = kits();
+    for i in 0..ks.len() {
+        for j in i + 1..ks.len() {
+            for v in [PLAIN, Variant { prefix: 77, compressed: true }, Variant { prefix: SECTION_SPACING, compressed: false }] {
+                docs.push(combo(&ks[i], &ks[j], v));
+            }
+        }
+    }
     docs.extend(custom_docs(thorough, &mut rng));
     Gen { docs, exhaustive }
 }
@@ -239,6 +377,7 @@ fn oracle_walk(seed: u64, thorough: bool, only: Option<(&str, bool, bool)>) -> O
     let mut docs = vec![];
     let mut meta = vec![];
     let mut witnesses = corr::witness_docs();
+    let n_witness_docs = witnesses.len();
     witnesses.extend(gen.docs);
     for p in witnesses.iter() {
         for &(t, c) in CONFIGS.iter() {
@@ -251,11 +390,16 @@ fn oracle_walk(seed: u64, thorough: bool, only: Option<(&str, bool, bool)>) -> O
             meta.push((p, t, c));
         }
     }
-    let limits = Limits { max_objects: 24, time_limit_ms: 20_000, mem_limit_mb: 768, with_scan: true };
-    let res = walk_all(&docs, limits);
+    let limits = Limits { max_objects: 24, time_limit_ms: 10_000, mem_limit_mb: 768, with_scan: true };
+    let res = walk_some(&docs, limits, if only.is_some() { docs.len() } else { n_witness_docs * CONFIGS.len() });
     let mut slowest = 0u64;
     let mut per_sig: std::collections::BTreeMap<String, u32> = Default::default();
+    let not_walked = res.iter().filter(|r| r.is_none()).count();
+    if not_walked > 0 {
+        or.count(&format!("not walked: the search stopped after {} time-outs / dead processes ({} documents left)", EXPENSIVE_FAILURES, not_walked));
+    }
     for ((p, t, c), r) in meta.iter().zip(res.iter()) {
+        let r = match r { Some(r) => r, None => continue };
         or.count(&format!("docs fragment={}", p.frag));
         or.count(&format!("config={}", cfg_name(*t, *c)));
         slowest = slowest.max(r.ms);
@@ -294,7 +438,7 @@ pub fn run(driver: &Driver, seed: u64, thorough: bool, replay: Option<&serde_jso
             let frag_static: &'static str = Box::leak(frag.into_boxed_str());
             let p = Planted { frag: frag_static, ..p };
             let (t, c) = (r["tolerant"].as_bool().unwrap_or(false), r["cached"].as_bool().unwrap_or(false));
-            let res = walk_all(&[Doc { bytes: p.bytes.clone(), tolerant: t, cached: c }], Limits { max_objects: 24, time_limit_ms: 20_000, mem_limit_mb: 768, with_scan: true });
+            let res = walk_all(&[Doc { bytes: p.bytes.clone(), tolerant: t, cached: c }], Limits { max_objects: 24, time_limit_ms: 10_000, mem_limit_mb: 768, with_scan: true });
             let mut or = Oracle::new("c14.walk");
             or.case(&p.desc, true, || json!({"doc": p.desc, "outcome": format!("{:?}", res[0].outcome)}));
             if let Some((sig, what)) = classify(&p, &res[0]) {
